@@ -166,6 +166,9 @@ impl C02 {
         fams.add("unary", vec![UNARY.len() as u64, 2, all.len() as u64]);
         let c = core.len() as u64;
         fams.add("tree2", vec![2, TREEOPS.len() as u64, TREEOPS.len() as u64, c, c, c]);
+        // a function applied to a power / reciprocal / square of every representative unit: the
+        // angle and dimensionless tests must look at the exponent, not only at which base units occur
+        fams.add("fn-of-power", vec![FN6.len() as u64, POWFORMS.len() as u64, n]);
         C02 {
             fams,
             reps,
@@ -290,6 +293,35 @@ impl C02 {
                 };
                 (q, want, false)
             }
+            3 => {
+                let k = FN6[d[0] as usize];
+                let form = POWFORMS[d[1] as usize];
+                let o = &self.reps[d[2] as usize];
+                let x = &o.text;
+                let (arg, e): (String, i64) = match form {
+                    "x*x" => (format!("{} * {}", x, x), 2),
+                    "1/x" => (format!("1 / {}", x), -1),
+                    "x x x" => (format!("{} {} {}", x, x, x), 3),
+                    f => (format!("{}{}", x, f), f[1..].parse().unwrap()),
+                };
+                let dd = dims_pow(&o.dims, e);
+                let ok = match k {
+                    "sin" | "cos" | "tan" => dd.is_empty() || dd == radian(),
+                    _ => dd.is_empty(),
+                };
+                let res = match k {
+                    "sin" | "cos" | "tan" => Dims::new(),
+                    _ => radian(),
+                };
+                let want = if !ok || (e < 0 && o.sign == 0) {
+                    Want::Refuse
+                } else if e < 0 && o.sign == 2 {
+                    Want::Either(res)
+                } else {
+                    Want::Dims(res)
+                };
+                (format!("{}({})", k, arg), want, false)
+            }
             _ => {
                 let shape = d[0];
                 let (o1, o2) = (TREEOPS[d[1] as usize], TREEOPS[d[2] as usize]);
@@ -333,6 +365,9 @@ impl C02 {
     }
 }
 
+const FN6: [&str; 6] = ["sin", "cos", "tan", "asin", "acos", "atan"];
+const POWFORMS: [&str; 9] = ["^-3", "^-2", "^-1", "^0", "^2", "^3", "x*x", "1/x", "x x x"];
+
 fn pad(op: &str) -> String {
     if op == " " {
         " ".into()
@@ -350,7 +385,7 @@ impl Space for C02 {
         Meta {
             id: "C02",
             level: "exploration",
-            rule: "10 binary operators/functions (* / juxtaposition | + - mod hypot atan2 unit-list) x 4 coefficient pairs x all ordered pairs of one representative unit per distinct dimensionality of the registry (+ two quoted ad-hoc base units + a dimensionless operand); 27 unary/power/root/function applications x {1, -2} coefficient x every unit, base unit and long/prefixed/plural base-unit spelling; both depth-2 shapes x 5x5 operators over an 11-unit core. Oracle: own exponent-vector algebra on the registry dump. Non-trivial = judged (expected dims or expected refusal defined); distinct by query text".into(),
+            rule: "10 binary operators/functions (* / juxtaposition | + - mod hypot atan2 unit-list) x 4 coefficient pairs x all ordered pairs of one representative unit per distinct dimensionality of the registry (+ two quoted ad-hoc base units + a dimensionless operand); 27 unary/power/root/function applications x {1, -2} coefficient x every unit, base unit and long/prefixed/plural base-unit spelling; both depth-2 shapes x 5x5 operators over an 11-unit core; 6 trigonometric functions x 9 power/reciprocal/product forms (x^-3..x^3, x*x, 1/x, x x x) of every representative unit (an angle squared is not an angle). Oracle: own exponent-vector algebra on the registry dump. Non-trivial = judged (expected dims or expected refusal defined); distinct by query text".into(),
             assumptions: vec![
                 "the registry dump (C08 validates it) gives each unit's dimensionality".into(),
                 "exp/ln/log/hyperbolic functions of dimensioned arguments and p/q powers with p != 1 are recorded, not judged (the statement gives no rule)".into(),
